@@ -430,6 +430,16 @@ def oracle_c12(run, ops, impl):
                         out.append(V("C12:not-pro-rata", {"line": i + 1, "validator": a, "paid": o["paid"].get(a, 0), "want": want, "weight": p["weight"], "total": totw}))
             elif paid != 0:
                 out.append(V("C12:paid-without-weight", {"line": i + 1, "paid": paid}))
+            # the schedule: a period's pot leaves the schedule exactly when it is paid out — with winners every allocation loses one
+            # period, without winners nothing is consumed (the pot of that period is still owed)
+            if totw == 0 and sorted(o["rewards"]) != sorted(d["rewards"]):
+                out.append(V("C12:reward-period-consumed-without-payout", {"line": i + 1, "schedule_before": sorted(d["rewards"])[:6],
+                                                                            "schedule_after": sorted(o["rewards"])[:6]}))
+            if totw > 0:
+                want_sched = sorted((r[0], r[1] - 1, r[2]) for r in d["rewards"] if r[1] > 1)
+                if sorted(o["rewards"]) != want_sched:
+                    out.append(V("C12:reward-schedule-not-advanced-by-one-period", {"line": i + 1, "schedule_before": sorted(d["rewards"])[:6],
+                                                                                    "schedule_after": sorted(o["rewards"])[:6]}))
             if d["bal"] >= owed_before and o["bal"] < owed_after:
                 out.append(V("C12:module-balance-below-owed", {"line": i + 1, "balance": o["bal"], "owed": owed_after}))
         elif op.startswith("oracle gates"):
@@ -1246,6 +1256,29 @@ def oracle_c05_supply(run, ops, impl):
 def oracle_c05(run, ops, impl):
     if run["model"] == "evmsupply":
         return oracle_c05_supply(run, ops, impl)
+    if run["model"] == "sdb":
+        # what the StateDB hands to the bank at Commit: where the persisted unibi balances differ from the reference semantics'
+        # (outside the listed findings around reverted precompile frames, which C04 / the evmsupply run report) NIBI was made or lost
+        out = []
+        for v in oracle_sdb(run, ops, impl, "C05"):
+            sig = v.get("signature", "")
+            if sig.startswith("C05:view-differs-after-precompile-without-revert"):
+                # the StateDB shows another balance than the bank holds after a precompile's bank move, nothing having been reverted:
+                # Commit writes the StateDB's figure back over the bank's (SetAccBalance mints / burns the difference)
+                got, want = v["detail"].get("got", ""), v["detail"].get("want", "")
+                if got.split(":")[1:2] != want.split(":")[1:2]:
+                    v["signature"] = "C05:statedb-balance-out-of-step-with-the-bank-after-a-precompile-bank-move"
+                    out.append(v)
+                continue
+            if not sig.startswith("C05:committed-state-differs-after-precompile-without-revert") and \
+               not sig.startswith("C05:committed-state-differs-from-reference"):
+                continue
+            diffs = [d for d in v.get("detail", {}).get("differences", []) if d and d[0] == "account" and len(d) > 2 and
+                     d[2]["persisted"].get("bal") != d[2]["reference"].get("bal")]
+            if diffs:
+                v["signature"] = "C05:committed-unibi-balance-differs-from-the-reference" + (":after-precompile" if "precompile" in sig else "")
+                out.append(v)
+        return out
     if run["model"] != "evmtx":
         return []
     out = []
